@@ -124,4 +124,58 @@ theorem balanced_caller_sound (oracle : Nat → Bool) (fuel lf n : Nat) (hn : 4 
   · unfold splitIdx; omega
   · unfold splitIdx stepsMalloc; omega
 
+/-- the set of `out->steps` indices written by the recursion (as translated, from the caller's entry state) together with
+    the caller's trailing loop is EXACTLY {0, …, n-2} = {0, …, stepsMalloc n - 1} -/
+theorem steps_written_exact (oracle : Nat → Bool) (fuel lf n : Nat) (hn : 4 ≤ n) (hf : balancedCap n ≤ fuel)
+    (hlf : n - 3 ≤ lf) (j : Int) :
+    let k := theta_chain_comput_rec obs [] oracle fuel (n + 1) (recLen n) (recIndex n) (recAdvance n) (recStacklen n)
+        (recTotal n) 0 0 0 0
+        (RecSt.init (OSt.entry (stack1Size n (logLoop lf (lenInit n) logInit)).toNat n (n + 1 - (kernelDbl1 n).toNat) [n + 1]))
+    (j ∈ k.obs.steps.map (fun s => s.1) ∨ ∃ i, tailLo n ≤ i ∧ i < tailHi n ∧ j ∈ tailStepIdx n i) ↔
+      (0 ≤ j ∧ j < stepsMalloc n) := by
+  intro k
+  obtain ⟨k', hk', -, -, h3, -⟩ := balanced_caller_sound oracle fuel lf n hn hf hlf
+  have hkk : k = k' := hk'.symm
+  rw [hkk, h3]
+  unfold tailLo tailHi stepsMalloc
+  constructor
+  · rintro (h | ⟨i, h1, h2, h⟩)
+    · obtain ⟨m, hm, rfl⟩ := List.mem_map.mp h
+      have := List.mem_range'_1.mp hm
+      omega
+    · simp only [tailStepIdx, List.mem_cons, List.mem_nil_iff, or_false, or_self] at h
+      subst h; omega
+  · rintro ⟨h0, h1⟩
+    by_cases hj : j < (n : Int) - 3
+    · left
+      refine List.mem_map.mpr ⟨j.toNat, List.mem_range'_1.mpr (by omega), by omega⟩
+    · right
+      exact ⟨j, by omega, h1, by simp [tailStepIdx]⟩
+
+/-- hence `n - 1` is the LEAST sufficient element count for `out->steps`: an allocation of `a` elements contains every
+    written index iff `stepsMalloc n ≤ a`; in particular with `n - 2` elements the index `n - 2` written by the last
+    iteration of the trailing loop is outside -/
+theorem steps_alloc_tight (oracle : Nat → Bool) (fuel lf n : Nat) (hn : 4 ≤ n) (hf : balancedCap n ≤ fuel)
+    (hlf : n - 3 ≤ lf) (a : Int) :
+    let k := theta_chain_comput_rec obs [] oracle fuel (n + 1) (recLen n) (recIndex n) (recAdvance n) (recStacklen n)
+        (recTotal n) 0 0 0 0
+        (RecSt.init (OSt.entry (stack1Size n (logLoop lf (lenInit n) logInit)).toNat n (n + 1 - (kernelDbl1 n).toNat) [n + 1]))
+    (∀ j, (j ∈ k.obs.steps.map (fun s => s.1) ∨ ∃ i, tailLo n ≤ i ∧ i < tailHi n ∧ j ∈ tailStepIdx n i) → j < a) ↔
+      stepsMalloc n ≤ a := by
+  intro k
+  have H := steps_written_exact oracle fuel lf n hn hf hlf
+  constructor
+  · intro h
+    have := h (stepsMalloc n - 1) ((H _).mpr (by unfold stepsMalloc; omega))
+    omega
+  · intro h j hj
+    have := (H j).mp hj
+    omega
+
+/-- witness form of the negation: the trailing loop writes `out->steps[n - 2]`, outside an allocation of `n - 2` elements -/
+theorem steps_alloc_short_fails (n : Nat) (hn : 4 ≤ n) :
+    ∃ i, tailLo n ≤ i ∧ i < tailHi n ∧ ∃ j ∈ tailStepIdx n i, ¬ j < stepsMalloc n - 1 := by
+  refine ⟨(n : Int) - 2, by unfold tailLo; omega, by unfold tailHi; omega, (n : Int) - 2, by simp [tailStepIdx], ?_⟩
+  unfold stepsMalloc; omega
+
 end SqiProofs.BalCaller
